@@ -818,6 +818,20 @@ func (e *SpecEnv) call(x *ast.CallExpr) T {
 				n := *e
 				n.cur = e.loopEntry
 				return n.eval(x.Args[0])
+			case "entries":
+				// entries(m): the whole content of map m (keys and values) as one value; `==` compares it,
+				// e.g. entries(m) == atloop(entries(m)) says the loop has not touched m so far
+				v := e.eval(x.Args[0])
+				mt, ok := v.GT.Underlying().(*types.Map)
+				if !ok || strings.HasPrefix(string(v.Sort), "(Array") {
+					specFail("entries() expects a (non-ghost) map")
+				}
+				va, ha, ks, vs := e.g.mapArrs(mt)
+				vsort, hsort := Sort(fmt.Sprintf("(Array %s %s)", ks, vs)), Sort(fmt.Sprintf("(Array %s Bool)", ks))
+				mv := sel(e.g.arr(e.cur, va, vsort), v.S)
+				mh := sel(e.g.arr(e.cur, ha, hsort), v.S)
+				e.g.declareEntriesPair(vsort, hsort)
+				return mk(app(quote("entries:"+string(vsort)), mv, mh), Sort(quote("Entries:"+string(vsort))), nil)
 			case "imp":
 				return boolT(sImp(e.eval(x.Args[0]).S, e.eval(x.Args[1]).S))
 			case "iff":
